@@ -535,12 +535,13 @@ def build_project(rng: random.Random, src: str, ntemplates: int, nheaders: int, 
 
 def add_sequence(rng: random.Random, q: int, mb: T.List[str], files: T.Dict[str, T.Union[str, bytes]],
                  tcases: T.List[dict], hcases: T.List[dict], bag: Bag) -> None:
-    """One configuration_data() object used by several configure_file() calls with merge_from() in between.
-    After every step the expected content is that of the data AT THAT MOMENT (model kept here)."""
+    """A family of configuration_data() objects related by assignment, used by several configure_file() calls
+    with merge_from()/set()/assignment in between.  After every step the expected content is that of the data
+    of THAT object AT THAT MOMENT according to the build definition (model kept here: assignment copies)."""
     ops = G.gen_sequence(rng)
     universe = ops[-1][1]
-    model: T.Dict[str, T.Tuple[T.Any, T.Optional[str]]] = {}
-    obj = f'sq_{q}'
+    models: T.List[T.Dict[str, T.Tuple[T.Any, T.Optional[str]]]] = [{}]
+    names = [f'sq_{q}']
     step = 0
     nmerge = 0
     history: T.List[str] = []
@@ -566,27 +567,44 @@ def add_sequence(rng: random.Random, q: int, mb: T.List[str], files: T.Dict[str,
 
     for op in ops[:-1]:
         if op[0] == 'init':
-            mb.append(f'{obj} = configuration_data()')
-            model.update(emit_entries(obj, op[1]))
+            mb.append(f'{names[0]} = configuration_data()')
+            models[0].update(emit_entries(names[0], op[1]))
             history.append('init:%d' % len(op[1]))
+        elif op[0] == 'copy':
+            _c, src_i, dst_i = op
+            names.append(f'sq_{q}_c{dst_i}')
+            mb.append(f'{names[dst_i]} = {names[src_i]}')
+            models.append(dict(models[src_i]))
+            history.append('copy:%d>%d' % (src_i, dst_i))
+            bag.cells['sequence:assignment-copy'] = bag.cells.get('sequence:assignment-copy', 0) + 1
+        elif op[0] == 'set':
+            _s, tgt, entries = op
+            models[tgt].update(emit_entries(names[tgt], entries))
+            history.append('set:%d' % tgt)
+            bag.cells['sequence:set-before-use'] = bag.cells.get('sequence:set-before-use', 0) + 1
         elif op[0] == 'merge':
-            ex = f'{obj}_x{nmerge}'
+            _m, tgt, entries = op
+            ex = f'sq_{q}_x{nmerge}'
             nmerge += 1
             mb.append(f'{ex} = configuration_data()')
-            held = emit_entries(ex, op[1])
-            mb.append(f'{obj}.merge_from({ex})')
-            model.update(held)       # "copies all entries from that object to the current"
-            history.append('merge:%d' % len(held))
+            held = emit_entries(ex, entries)
+            mb.append(f'{names[tgt]}.merge_from({ex})')
+            models[tgt].update(held)       # "copies all entries from that object to the current"
+            history.append('merge:%d' % tgt)
             bag.cells['sequence:merge_from'] = bag.cells.get('sequence:merge_from', 0) + 1
         else:
-            _emit, kind, macro = op
+            _emit, who, kind, macro = op
+            obj = names[who]
+            model = models[who]
             data = {k: v for k, (v, _d) in model.items()}
             desc = {k: d for k, (_v, d) in model.items() if d}
-            name = f'{obj}_s{step}'
-            history.append('emit:' + kind)
+            name = f'sq_{q}_s{step}'
+            history.append('emit:%d:%s' % (who, kind))
             shape = ('sequence', tuple(history))
             bag.cells['sequence:emit-' + kind] = bag.cells.get('sequence:emit-' + kind, 0) + 1
             bag.tally.add('monitor:sequence-steps')
+            if len(names) > 1:
+                bag.tally.add('monitor:sequence-steps-in-a-family-of-copies')
             if kind == 'template':
                 text = ''.join(f'#mesondefine {k}\n{k}=[@{k}@]\n' for k in sorted(universe) + ['NEVER_SET'])
                 case = {'fmt': 'meson', 'text': text, 'data': data, 'markers': {}, 'charset': 'ascii',
@@ -598,7 +616,9 @@ def add_sequence(rng: random.Random, q: int, mb: T.List[str], files: T.Dict[str,
                 mb.append(f"configure_file(input: '{name}.in', output: '{name}.out', configuration: {obj})")
                 if real[0] == 'ok':
                     tcases.append({'name': name, 'case': case, 'encoding': None, 'inproc_out': ''.join(real[1]),
-                                   'inproc_missing': sorted(real[2]), 'style': 'sequence'})
+                                   'inproc_missing': sorted(real[2]), 'style': 'sequence',
+                                   'sequence': {'history': list(history), 'meson_build': mb[start:],
+                                                'files': dict(seq_files), 'output': name + '.out', 'input': name + '.in'}})
             else:
                 ext = {'c': 'h', 'nasm': 'asm', 'json': 'json'}[kind]
                 kw = [f"output: '{name}.{ext}'", f'configuration: {obj}']
@@ -671,11 +691,16 @@ def worker_project(job: T.Tuple[int, int, int, int]) -> dict:
             if ev is None:
                 bag.tally.add('inconclusive:file-no-do_conf_file-event')
                 continue
-            if ev['data'] != case['data']:
+            seqw = {'sequence': tc['sequence']} if tc.get('sequence') else {}
+            if ev['data'] != case['data'] and not seqw:
                 bag.tally.add('inconclusive:harness-data-not-transported')
                 bag.note('harness:meson-build-does-not-carry-the-data',
                          {'mode': 'harness', 'intended': case['data'], 'seen': ev['data']})
                 continue
+            if seqw and ev['data'] != case['data']:
+                # the literal transport (mstr/mval) is validated by every non-sequence item of the same project;
+                # here the object's entries are the result of the statements of the history
+                seqw['data_configure_file_worked_with'] = ev['data']
             bag.tally.add('monitor:file-format-and-encoding-honoured')
             if ev['fmt'] != case['fmt'] or ev['encoding'] != (tc['encoding'] or 'utf-8'):
                 # both are literal keyword arguments in the generated meson.build
@@ -693,26 +718,30 @@ def worker_project(job: T.Tuple[int, int, int, int]) -> dict:
                                                     'text': case['text'], 'data': case['data'], 'encoding': tc['encoding']})
                 continue
             if got != tc['inproc_out']:
-                bag.note(classify_file_difference(case, tc, got),
+                mech = classify_file_difference(case, tc, got)
+                if 'data_configure_file_worked_with' in seqw:
+                    mech = 'sequence:object-holds-entries-the-build-definition-did-not-give-it'
+                bag.note(mech,
                          {'mode': 'file', 'fmt': case['fmt'], 'text': case['text'], 'data': case['data'],
-                          'markers': case['markers'], 'encoding': tc['encoding'],
+                          'markers': case['markers'], 'encoding': tc['encoding'], **seqw,
                           'detail': {'file_output': got, 'do_conf_str_output': tc['inproc_out']}})
             bag.tally.add('monitor:missing-warning')
             w = sorted(warned.get(tc['name'] + '.in', set()))
             if w != tc['inproc_missing'] or sorted(ev['missing']) != tc['inproc_missing']:
                 bag.note('file:missing-warning-differs',
                          {'mode': 'file', 'fmt': case['fmt'], 'text': case['text'], 'data': case['data'],
-                          'markers': case['markers'], 'encoding': tc['encoding'],
+                          'markers': case['markers'], 'encoding': tc['encoding'], **seqw,
                           'detail': {'warned': w, 'do_conf_file': ev['missing'], 'do_conf_str': tc['inproc_missing']}})
         for hc in hcases:
             bag.cases += 1
             bag.shapes.add(common.digest(hc['shape']))
             ev = events.get(hc['name'])
-            if ev is None or ev['data'] != hc['data']:
+            if (ev is None or ev['data'] != hc['data']) and not hc.get('sequence'):
                 bag.tally.add('inconclusive:harness-data-not-transported')
                 bag.note('harness:meson-build-does-not-carry-the-data',
                          {'mode': 'harness', 'intended': hc['data'], 'seen': ev and ev['data']})
                 continue
+            seen_other = ev is not None and ev['data'] != hc['data']
             bag.tally.add('monitor:header-keys')
             with open(os.path.join(bdir, hc['name']), encoding='utf-8', newline='') as f:
                 text = f.read()
@@ -720,9 +749,14 @@ def worker_project(job: T.Tuple[int, int, int, int]) -> dict:
             if why is None and hc['output_format'] != 'json':
                 why = check_descriptions(text, hc)
             if why is not None:
-                bag.note('header:' + why.split(':')[0],
+                mech = 'header:' + why.split(':')[0]
+                extra_w: T.Dict[str, T.Any] = {}
+                if seen_other:
+                    mech = 'sequence:object-holds-entries-the-build-definition-did-not-give-it'
+                    extra_w = {'data_configure_file_worked_with': ev['data']}
+                bag.note(mech,
                          {'mode': 'header', 'data': hc['data'], 'desc': hc['desc'], 'output_format': hc['output_format'],
-                          'macro_name': hc['macro_name'], 'sequence': hc.get('sequence'),
+                          'macro_name': hc['macro_name'], 'sequence': hc.get('sequence'), **extra_w,
                           'detail': {'why': why, 'file': text}})
         if idx == 0:
             bag.samples.append({'project_meson_build_head': mbtext[:700]})
@@ -1077,6 +1111,24 @@ def replay(chk: common.Check, path: str) -> int:
     src = w.get('minimised') or w
     if mode == 'history':
         return replay_history(w)
+    if mode == 'file' and w.get('sequence'):
+        sq = w['sequence']
+        tmp = common.scratch_dir('c14r')
+        os.makedirs(os.path.join(tmp, 'src'))
+        tree2: T.Dict[str, T.Union[str, bytes]] = {k: v.encode('utf-8') for k, v in sq['files'].items()}
+        tree2['meson.build'] = "project('r', meson_version: '>=1.3.0')\n" + '\n'.join(sq['meson_build']) + '\n'
+        runner.write_tree(os.path.join(tmp, 'src'), tree2)
+        r = runner.meson(['setup', '--backend=none', os.path.join(tmp, 'b')], cwd=os.path.join(tmp, 'src'))
+        bad = True
+        if r.rc == 0:
+            real = run_real(w['text'], w['data'], w['fmt'])
+            with open(os.path.join(tmp, 'b', sq['output']), encoding='utf-8', newline='') as f:
+                got = f.read()
+            warned = sorted(parse_missing_warnings(r.out).get(sq['input'], set()))
+            bad = real[0] != 'ok' or got != ''.join(real[1]) or warned != sorted(real[2])
+        print('[C14] replay: history', sq['history'], '-> output/warning', 'NOT those of the object as built' if bad else 'as expected')
+        print('[C14] replay: witness', 'STILL FAILS' if bad else 'no longer fails')
+        return 1 if bad else 0
     if mode == 'header' and w.get('sequence'):
         sq = w['sequence']
         tmp = common.scratch_dir('c14r')
@@ -1262,7 +1314,7 @@ def main() -> int:
         ('monitor:scanner-equality', 10000), ('monitor:copy-through', 10000), ('monitor:no-rescan', 2000),
         ('monitor:line-ending', 10000), ('monitor:missing-set', 2000), ('monitor:define-render', 1000),
         ('monitor:define-line-ending', 1000), ('monitor:file-output-equals', 100), ('monitor:missing-warning', 100),
-        ('monitor:header-keys', 30), ('monitor:sequence-steps', 100), ('monitor:history-output-current', 200),
+        ('monitor:header-keys', 30), ('monitor:sequence-steps', 100), ('monitor:sequence-steps-in-a-family-of-copies', 50), ('monitor:history-output-current', 200),
         ('contract:do_conf_str:confstr_line_count_preserved', 1000),
         ('contract:do_replacement_meson:repl_meson_agrees_with_scanner', 10000),
         ('contract:do_define_meson:define_has_documented_form', 500),
